@@ -573,6 +573,36 @@ def with_items(rel, tree, alias, bound, own_cm):
     return out
 
 
+def dtype_literals(tree, alias):
+    """numpy type names written as STRING literals: `dtype='...'` keywords, `.astype('...')`, `np.dtype('...')`,
+    `np.<maker>(..., '...')` is not guessed.  -> [(line, literal)]"""
+    out = []
+    for n in ast.walk(tree):
+        if not isinstance(n, ast.Call):
+            continue
+        for kw in n.keywords:
+            if kw.arg == "dtype" and isinstance(kw.value, ast.Constant) and isinstance(kw.value.value, str):
+                out.append((n.lineno, kw.value.value))
+        if isinstance(n.func, ast.Attribute) and n.func.attr in ("astype", "view") and n.args \
+                and isinstance(n.args[0], ast.Constant) and isinstance(n.args[0].value, str):
+            out.append((n.lineno, n.args[0].value))
+        d = _dotted(n.func)
+        if d and d[0] in alias and (alias[d[0]].split(".") + d[1:]) == ["numpy", "dtype"] and n.args \
+                and isinstance(n.args[0], ast.Constant) and isinstance(n.args[0].value, str):
+            out.append((n.lineno, n.args[0].value))
+    return sorted(set(out))
+
+
+def dtype_understood(name):
+    """does the installed numpy understand this type name"""
+    import numpy
+    try:
+        numpy.dtype(name)
+        return True
+    except Exception:
+        return False
+
+
 def lean_str(s):
     return '"' + s.replace("\\", "\\\\").replace('"', '\\"') + '"'
 
@@ -654,6 +684,10 @@ def generate(repo):
         for root, chain, kws, line, g in v.kwcalls:
             if is_external(root) and root.split(".")[0] not in OPTIONAL:
                 callees.add(tuple(root.split(".") + list(chain)))
+    dtype_rows = []
+    for rel, v in visitors:
+        for line, lit in dtype_literals(trees[rel], v.alias):
+            dtype_rows.append((rel, line, lit, dtype_understood(lit)))
     own_cm = own_context_classes(trees)
     w_rows = []
     for rel, v in visitors:
@@ -754,6 +788,11 @@ def generate(repo):
     out.append("def withItems : List WithItem := [\n" + ",\n".join(
         "  ⟨%s, %d, %s, %s, %s⟩" % (lean_str(f), l, lean_str(x), lean_str(h), "true" if r else "false")
         for f, l, x, h, r in with_table) + "]\n")
+    out.append("/-- numpy type names the source writes as STRING literals (`dtype='…'`, `.astype('…')`, `np.dtype('…')`): (file, line,\n"
+               "literal, does `numpy.dtype(literal)` of the installed numpy understand it) - a name that exists only as a string is\n"
+               "an interface of the library all the same (`'float_'` went with `np.float_`) -/\n")
+    out.append("def dtypeLiterals : List (String × Nat × String × Bool) := [%s]\n" % ", ".join(
+        "(%s, %d, %s, %s)" % (lean_str(f), l, lean_str(x), "true" if k else "false") for f, l, x, k in sorted(dtype_rows)))
     out.append("/-- how many module-level names are bound only under an optional-dependency guard (non-vacuity) -/\n")
     out.append("def optionalOnlyNames : Nat := %d\n" % sum(len(v) for v in only.values()))
     out.append("/-- lower bound of python_requires in setup.py -/\n")
